@@ -1,4 +1,5 @@
 \* events (v10), NoLag dropped: EXPECTED VIOLATION of EventsComplete
+\* measured (8 TLC workers shared over 3 runs): 5232 distinct / 10111 generated states, depth 9, 6.4s - ends with the expected violation of EventsComplete
 CONSTANTS NSubs = 1 NConn = 1 InitLen = 2 MaxLen = 4 MaxTag = 4 MaxReverts = 1 MaxL1 = 0 MaxPc = 0 MaxTx = 2 MaxGw = 0 MaxRecv = 0 MaxTicks = 0 MaxBack = 3 MaxGot = 6
   Ver = 10 Kinds <- KEvents StartAtL1 = 0 NoLag = FALSE QuietSub = TRUE ReorgPrio = TRUE TeeStage = FALSE Window = FALSE FixL1None = FALSE FixL1Order = FALSE BlockIds <- BidsSmall
 INIT Init
